@@ -94,7 +94,7 @@ PROPS = {
              "R-TYPE-TABLE, R-CONSTEXPR-TABLE, R-FIELDS-COVER(Types), R-NAME-PAIRING, R-COPY-PAIRING, R-CUSTOM-SECTIONS, R-IMPORT-ORDINAL, R-LOOP-SCRATCH, R-REFERS-EXH, R-TYPE-FIELD-FLOW.",
              "equality of decoded forms on every input.",
              "table extraction + field-provenance pairing"),
-    "C03": P([("nopanic", "nopanic", {})],
+    "C03": P([("nopanic", "nopanic", {}), ("nopanic", "untrusted_alloc", {})],
              "sound over-approximation: every MIR panic edge on a resolved local call path from the four parse roots is enumerated; guard idioms discharge; the rest are reported",
              "R-NOPANIC over the local call graph, R-PAYLOAD-EXH.",
              "panics inside dependencies (trusted to honour Result contracts); aborts (OOM/stack); debug-only overflow checks are counted, not judged.",
@@ -190,7 +190,7 @@ PROPS = {
              "R-SPECIAL-FLAG, R-RESOLVE-CLEARS, R-ENTRY-PRESERVE, R-MODE-FIELD, R-SIBLING(instrumenter), R-DEAD-AFTER-SINK, R-HAS-INSTR, R-CLEAR-COHERENT, R-INJECT-AT.",
              "that every accepted special injection appears in the bytes for every body.",
              "result-use analysis + guarded-write analysis"),
-    "C23": P([TT_BOTH, ADDFLOW, SCRATCH, MAPUNC, FULLIT, ("emit", "tag_emit", {}), MODEF, ("misc", "type_dedup", {})],
+    "C23": P([MODESET, TT_BOTH, ADDFLOW, SCRATCH, MAPUNC, FULLIT, ("emit", "tag_emit", {}), MODEF, ("misc", "type_dedup", {})],
              "necessary: InjectType↔Injection pairing, guards, parse-path tags are None, probe bodies collected after remapping",
              "R-TAG-EMIT (incl. R-PARSE-TAG-NONE), R-MODE-FIELD, R-TYPE-DEDUP (a parsed type is never overwritten by a tagged request for the same signature).",
              "record multiset over histories.",
